@@ -111,38 +111,41 @@ class Monitor:
         o_opb_con = BaseOPB.add_constraint
         o_grp = VariablesManager._add_variable_group
 
+        # only the public interface of the formula classes is used here
+        # (len(F), F[i]): private attribute names are free to change
         def cnf_add(self, clause, check=True):
-            n0 = len(self._clauses)
+            n0 = len(self)
             try:
                 return o_cnf_add(self, clause, check)
             finally:
-                if len(self._clauses) > n0:
-                    mon._mention(self, self._clauses[-1])
+                n1 = len(self)
+                if n1 > n0:
+                    mon._mention(self, self[n1 - 1])
+
+        def _terms(con):
+            return [t[1] for t in con[:-2]
+                    if isinstance(t, tuple) and len(t) == 2]
 
         def opb_add(self, clause, check=True):
-            n0 = len(self._constraints)
+            n0 = len(self)
             try:
                 return o_opb_add(self, clause, check)
             finally:
-                if len(self._constraints) > n0:
-                    mon._mention(self, [t[1] for t in
-                                        self._constraints[-1][:-2]
-                                        if isinstance(t, tuple)
-                                        and len(t) == 2])
+                n1 = len(self)
+                if n1 > n0:
+                    mon._mention(self, _terms(self[n1 - 1]))
 
         def opb_con(self, constraint, check=True):
-            n0 = len(self._constraints)
+            n0 = len(self)
             try:
                 return o_opb_con(self, constraint, check)
             finally:
-                if len(self._constraints) > n0:
-                    mon._mention(self, [t[1] for t in
-                                        self._constraints[-1][:-2]
-                                        if isinstance(t, tuple)
-                                        and len(t) == 2])
+                n1 = len(self)
+                if n1 > n0:
+                    mon._mention(self, _terms(self[n1 - 1]))
 
         def grp(self, vg):
-            F = self._formula
+            F = vg.parent_formula()
             n0 = F.number_of_variables()
             s = mon.st(F)
             mm = s["maxm"]
